@@ -357,6 +357,10 @@ func (g *gen) c09Script(n int) string {
 			default:
 				old := ch
 				ch = 1 + g.r.Intn(254)
+				if g.r.Intn(3) == 0 {
+					ch = old // the gateway hands out the same channel id again
+					g.stats["c09.reconnect-same-channel"]++
+				}
 				b.at(g.pick(0, 1, c.R+1), fmt.Sprintf("rx cres %d 0", ch))
 				conn = b.q
 				// frames for the old channel are inert now; sequence numbers restart
@@ -526,7 +530,7 @@ func main() {
 			emit(g.c10Script())
 		}
 	default:
-		if !genOther(g, *prop, *budget, emit) {
+		if !genOther(g, *prop, *budget, emit) && !genRealtime(g, *prop, *budget, emit) {
 			fmt.Fprintln(os.Stderr, "unknown -prop")
 			os.Exit(2)
 		}
